@@ -79,8 +79,7 @@ VerifyProg(shape, gs) ==
             [op |-> "verifyhashenv", obj |-> "r", buf |-> "b", verifiers |-> <<Vf(1, gs[1])>>] >>
 \* built-in signers with an entropy source that fails at once, runs dry after k bytes (error or short reads), or is fine
 Rands == { [budget |-> 0, short |-> FALSE], [budget |-> 7, short |-> FALSE], [budget |-> 7, short |-> TRUE], [budget |-> 40, short |-> FALSE], [budget |-> 0 - 1, short |-> FALSE] }
-EntropyProg(shape, alg, r) ==
-  LET s == [kind |-> "builtin", name |-> "b", alg |-> alg, fault |-> ""] IN
+EntropyProgS(shape, alg, r, s) ==
   CASE shape = "sign1" ->
          << [op |-> "new", obj |-> "m", kind |-> "sign1", m |-> [P |-> <<>>, U |-> <<>>, payload |-> Pay, sig |-> <<>>]],
             [op |-> "sign", obj |-> "m", signers |-> <<s>>, rand |-> r] @@ X,
@@ -95,6 +94,11 @@ EntropyProg(shape, alg, r) ==
          << [op |-> "new", obj |-> "par", kind |-> "sign1", m |-> [P |-> P1, U |-> <<>>, payload |-> Pay, sig |-> Dummy]],
             [op |-> "countersign0", obj |-> "", parent |-> "par", form |-> "val", signers |-> <<s>>, buf |-> "b", rand |-> r] @@ X >>
 
+EntropyProg(shape, alg, r) == EntropyProgS(shape, alg, r, [kind |-> "builtin", name |-> "b", alg |-> alg, fault |-> ""])
+\* built-in signers over a key that fails (an HSM / KMS / agent behind crypto.Signer): error, empty or nil signature without an error
+KeyFaults == {"err", "empty", "nil"}
+KeyFaultProg(shape, alg, kf) == EntropyProgS(shape, alg, [budget |-> 0 - 1, short |-> FALSE], [kind |-> "faultykey", name |-> "b", alg |-> alg, fault |-> kf])
+
 OneSlot == {"sign1", "sign1u", "sign1helper", "sign1untaggedhelper", "sig", "cs", "cs0", "henv"}
 VARIABLE st
 Init == st = [phase |-> 0]
@@ -106,8 +110,16 @@ PickVerify == st.phase = 0 /\
    \/ \E n \in 1..MaxSigners : \E v \in Vectors(n, VFaults) : st' = [phase |-> 1, flow |-> "verify", shape |-> "sign", fs |-> [i \in 1..n |-> v[i]]]
 PickEntropy == st.phase = 0 /\ \E sh \in {"sign1", "sign1helper", "sign", "cs0"} : \E alg \in {0 - 7, 0 - 37, 0 - 8, 0 - 36} : \E r \in Rands :
                   st' = [phase |-> 1, flow |-> "entropy", shape |-> sh, fs |-> <<"">>, alg |-> alg, r |-> r]
-Next == PickSign \/ PickVerify \/ PickEntropy
+\* more signers than the exhaustive vectors cover (work split over several workers, batches): one fault at each position, and none
+OneFault(n, pos, f) == [i \in 1..n |-> IF i = pos THEN f ELSE ""]
+PickWide == st.phase = 0 /\ \E n \in (MaxSigners + 1)..9 : \E pos \in 0..n :
+               \/ \E f \in Faults \ {""} : st' = [phase |-> 1, flow |-> "sign", shape |-> "sign", fs |-> OneFault(n, pos, IF pos = 0 THEN "" ELSE f)]
+               \/ st' = [phase |-> 1, flow |-> "verify", shape |-> "sign", fs |-> OneFault(n, pos, "err")]
+PickKeyFault == st.phase = 0 /\ \E sh \in {"sign1", "sign1helper", "sign", "cs0"} : \E alg \in {0 - 7, 0 - 37, 0 - 38, 0 - 39, 0 - 8, 0 - 36} : \E kf \in KeyFaults :
+                  st' = [phase |-> 1, flow |-> "keyfault", shape |-> sh, fs |-> <<kf>>, alg |-> alg]
+Next == PickSign \/ PickVerify \/ PickEntropy \/ PickKeyFault \/ PickWide
 Spec == Init /\ [][Next]_st
 Prog == CASE st.flow = "sign" -> SignProg(st.shape, st.fs) [] st.flow = "verify" -> VerifyProg(st.shape, st.fs) [] st.flow = "entropy" -> EntropyProg(st.shape, st.alg, st.r)
+          [] st.flow = "keyfault" -> KeyFaultProg(st.shape, st.alg, st.fs[1])
 Emit == st.phase # 1 \/ PrintT(<<"CASE", ToJson([flow |-> st.flow, shape |-> st.shape, fs |-> [i \in 1..Len(st.fs) |-> FName(st.fs[i])], steps |-> Prog])>>)
 =============================================================================
